@@ -79,6 +79,8 @@ class FileSystem(SimComponent):
         self._create_manager = RequestManager()
 
         def _create_file_action(request: List[Any], context: Any) -> RequestResponse:
+            if not request[2] and self.get_file(folder_name=request[0], file_name=request[1]):
+                return RequestResponse(status="failure", data={"reason": "file already exists"})
             file = self.create_file(folder_name=request[0], file_name=request[1], force=request[2])
             if not file:
                 return RequestResponse.from_bool(False)
